@@ -4,14 +4,14 @@ EXTENDS Helmert
 Z3 == <<0, 0, 0>>
 \* parameter pools (metres, m/yr, arcsec, arcsec/yr, ppm, ppm/yr)
 TsQ  == {Z3, <<3, -5, 7>>}
-DTsQ == {Z3, <<1, -2, 3>>}
+DTsQ == {Z3, <<0, -2, 3>>}
 RsQ  == {Z3, <<2, -3, 5>>}
 DRsQ == {Z3, <<1, 2, -1>>}
 SsQ  == {0, 7}
 DSsQ == {0, 2}
 
 TsT  == TsQ  \cup {<<4, 0, -6>>}
-DTsT == DTsQ \cup {<<0, 2, 0>>}
+DTsT == DTsQ \cup {<<1, 0, 0>>}
 RsT  == RsQ  \cup {<<0, 0, 4>>}
 DRsT == DRsQ
 SsT  == SsQ \cup {-3}
@@ -32,7 +32,7 @@ CoresQ == CoreSet(TsQ, DTsQ, RsQ, DRsQ, SsQ, DSsQ, {NaN, 2000}, {NaN, 2003})
 CoresT == CoreSet(TsT, DTsT, RsT, DRsT, SsT, DSsT, {NaN, 2000}, {NaN, 2003, 1997})
 
 EpochsQ == {2000, 2001, 2002}
-EpochsT == {2000, 2001, 2002, 1995, NaN}
+EpochsT == {2000, 2002, 1995, NaN}
 
 \* cartesian positions within 10^7 m of the geocentre (the last one small, so that
 \* translations are visible against it)
